@@ -209,6 +209,26 @@ def streams(rng, tier):
                 vals = [["N"] if rng.random() < 0.3 else rng.choice(BC_POOL[ty]) for _ in range(n)]
                 cs.append({"op": "bc", "ty": ty, "attr": name, "vals": vals})
     out.append(("broadcast", cs))
+    # ---- broadcast over equal-but-distinguishable elements (0.0 / -0.0: same ==, same hash, different value):
+    #      "element i of the result is the method applied to element i" forbids computing once per distinct value
+    cs = []
+    twins = [["f", H(0.0)], ["f", H(1.5)], ["f", H(-0.0)], ["N"], ["f", H(0.0)], ["f", H(-0.0)]]
+    for name in bc_names("float"):
+        cs.append({"op": "bc", "ty": "float", "attr": name, "vals": twins})
+        cs.append({"op": "bc", "ty": "float", "attr": name, "vals": list(reversed(twins))})
+    out.append(("broadcast-twins", cs))
+    # ---- broadcast after in-place writes: read the attribute, write twice (no read in between), read again, ...
+    #      the result must follow the CURRENT elements (a result memoised per storage identity would not)
+    cs = []
+    for ty in BC_TYPES:
+        pool = BC_POOL[ty]
+        for name in bc_names(ty):
+            for _ in range(1 if not thorough else 4):
+                n = rng.choice([3, 4, 4, 5])
+                vals = [rng.choice(pool) for _ in range(n)]
+                writes = [[rng.randrange(n), rng.choice(pool)] for _ in range(rng.choice([2, 4, 6]))]
+                cs.append({"op": "bc", "ty": ty, "attr": name, "vals": vals, "writes": writes})
+    out.append(("broadcast-history", cs))
     return [(name, _dedupe(cases)) for name, cases in out]
 
 
@@ -574,12 +594,39 @@ def _obs_bc(case):
     a = [V.dec(x) for x in case["vals"]]
     typed = all(x is None for x in a)               # all-None / empty: keep the element class by an explicit dtype
     v = _mkvec(a, ty if typed else None)
-    xs = [it.id(x) for x in a]
     args, kwargs = bc_args(ty, name)
     cls_attr = getattr(t, name, None)
     explicit = any(name in k.__dict__ for k in type(v).__mro__ if k is not Vector and k is not object)
+    stale = None
+    if case.get("writes") and not (not explicit and name in dir(Vector)):
+        # history: read, then pairs of writes with a read after each pair; the LAST read is what is compared
+        # (the earlier reads are compared by the oracle through "stale")
+        call0 = explicit or callable(cls_attr)
+        ref0 = bc_reference(ty, name)
+        ws = case["writes"]
+        for k in range(0, len(ws) + 1, 2):
+            if k == len(ws):
+                break
+            try:
+                attr0 = getattr(v, name)
+                r0 = attr0(*args, **kwargs) if call0 else attr0
+                if stale is None and isinstance(r0, Vector):
+                    want = []
+                    for x in v._underlying:
+                        want.append(None if x is None else (ref0(x, *args, **kwargs) if call0 else ref0(x)))
+                    got = list(r0._underlying)
+                    if [repr(g) for g in got] != [repr(w) for w in want]:
+                        stale = f"read #{k // 2} on {list(v._underlying)!r}: got {got!r}, expected {want!r}"[:300]
+            except Exception:
+                pass
+            for idx, tag in ws[k:k + 2]:
+                v[idx] = V.dec(tag)
+        a = list(v._underlying)
+    xs = [it.id(x) for x in a]
     o = {"xs": xs, "explicit": explicit, "kind": V.schema_obs(v.schema()),
          "attr_class": "AMissing" if cls_attr is None else ("ACallable" if callable(cls_attr) else "ANonCallable")}
+    if stale:
+        o["stale"] = stale
     if not explicit and name in dir(Vector):
         o["skip"] = f"Vector.{name} is the vector's own attribute, not a broadcast"
         return o
@@ -754,6 +801,8 @@ def oracle(case, obs):
         return None
     ref = obs.get("ref")
     op = case["op"]
+    if obs.get("stale"):
+        return f"bc-stale-after-write: {_what(case)} writes={case.get('writes')}: {obs['stale']}"
     if ref == "mismatch":
         if "exc" not in obs:
             return f"{op}-length-mismatch-accepted: {_what(case)} returned {obs.get('res')} instead of raising"
